@@ -221,13 +221,14 @@ def _work(arg):
 
 
 def write_evidence(pid, tier, seed, level, coverage, assumptions, wall, nviol):
-    os.makedirs(os.path.join(VERIF, "evidence"), exist_ok=True)
+    evdir = os.environ.get("VERIF_EVIDENCE_DIR") or os.path.join(VERIF, "evidence")
+    os.makedirs(evdir, exist_ok=True)
     ev = {
         "property_id": pid, "tier": tier, "seed": seed, "level": level,
         "coverage": coverage, "assumptions": assumptions, "wall_s": round(wall, 3),
         "violations": nviol,
     }
-    p = os.path.join(VERIF, "evidence", "%s.json" % pid)
+    p = os.path.join(evdir, "%s.json" % pid)
     with open(p + ".tmp", "w") as f:
         json.dump(ev, f, indent=1, sort_keys=True, default=lambda o: repr(o)[:200])
     os.replace(p + ".tmp", p)
@@ -269,8 +270,6 @@ def run_property(pid, tier, seed, replay=None):
         case = prop.case_from_json(j["case"])
         v = prop.check_case(case)
         total.add("replay", case, v, keep_sample=False)
-        for vv in v.viols:
-            total.viols[-1:] = total.viols[-1:]  # (already added by add)
     # --- sharded tiers
     specs = prop.shards(tier, seed)
     if specs:
